@@ -1,4 +1,5 @@
 From Coq Require Import List Arith ZArith QArith Bool String.
+From BZ Require Import Base.QcInst Model.LinErr.
 From BZ Require Import Base.PyVal Model.Hull Gen.PyFnHelpers Gen.PyFnGeometric Gen.PyFnTriangle Gen.PyFnTriangleIntersection Corr.Common.
 Import ListNotations.
 
@@ -10,3 +11,9 @@ Definition val_of_pts (l : list pt) : val := VTup [VTup (map (fun p => VQ (fst p
 Definition hull_val (xs ys : list Q) : val := val_of_pts (simple_convex_hull (pts_of xs ys)).
 Definition collide_val (x1 y1 x2 y2 : list Q) : val := VB (polygon_collide (pts_of x1 y1) (pts_of x2 y2)).
 Definition separating_val (dx dy : Q) (x1 y1 x2 y2 : list Q) : val := VB (is_separating (dx, dy) (pts_of x1 y1) (pts_of x2 y2)).
+
+(* linearization_error: (rows, observed value, relative tolerance) - the model returns the SQUARE of the result *)
+Definition chk_lin_error (c : list (list Q) * Q * Q) : bool :=
+  let '(rows, obs, rel) := c in
+  let m := Qcanon.this (lin_error_sq (qcm rows)) in
+  Qle_bool (Qabs.Qabs (obs * obs - m)) (rel * m).
